@@ -247,6 +247,31 @@ def tour(nodes, edges, init, maxlen):
 
     covered = bytearray(len(edges))
     nunc = {u: len(es) for u, es in out.items()}  # uncovered out-edges per node
+
+    def nearest_uncovered(u, room, maxdepth=6, maxnodes=300):
+        seen = {u: None}
+        frontier = [u]
+        depth = 0
+        while frontier and depth < min(maxdepth, room - 1) and len(seen) < maxnodes:
+            depth += 1
+            nxt = []
+            for x in frontier:
+                for ei in out.get(x, ()):
+                    v = edges[ei][1]
+                    if v in seen:
+                        continue
+                    seen[v] = ei
+                    if nunc.get(v, 0) > 0:
+                        hop = []
+                        while seen[v] is not None:
+                            hop.append(seen[v])
+                            v = edges[seen[v]][0]
+                        hop.reverse()
+                        return hop
+                    nxt.append(v)
+            frontier = nxt
+        return None
+
     ptr = collections.defaultdict(int)
     paths = []
     # process edges in order of depth of their source so prefixes get shared
@@ -265,8 +290,17 @@ def tour(nodes, edges, init, maxlen):
         # greedy walk along uncovered edges
         while len(p) < maxlen:
             es = out.get(cur)
-            if not es or nunc.get(cur, 0) <= 0:
+            if not es:
                 break
+            if nunc.get(cur, 0) <= 0:
+                # nothing new here: walk on (through covered edges) to the nearest state that still has
+                # uncovered out-edges instead of starting over from the initial state
+                hop = nearest_uncovered(cur, maxlen - len(p))
+                if not hop:
+                    break
+                p.extend(hop)
+                cur = edges[hop[-1]][1]
+                continue
             k = ptr[cur]
             while k < len(es) and covered[es[k]]:
                 k += 1
@@ -283,6 +317,22 @@ def tour(nodes, edges, init, maxlen):
     return paths
 
 
+_G = None
+
+
+def _project_chunk(arg):
+    base, nids = arg
+    nodes, sites, kind, unstable = _G
+    proj = project if kind == "managed" else PROJECTORS[kind]
+    out = []
+    for k, nid in enumerate(nids):
+        post = proj(state_to_json(nodes[nid]), sites)
+        if kind == "sync":
+            post["stable"] = nid not in unstable
+        out.append(json.dumps({"n": base + k, "post": post}, separators=(',', ':')))
+    return out
+
+
 def write_paths(out_path, hcfg, nodes, edges, paths, sites, meta, kind="managed"):
     """Compact format: header, label table, node table (projected states), then paths as
     [label index, node index] pairs."""
@@ -292,17 +342,15 @@ def write_paths(out_path, hcfg, nodes, edges, paths, sites, meta, kind="managed"
     # (sync: the blocking pool's own steps): the harness compares only in stable states
     unstable = set(src for (src, dst, lbl) in edges if lbl.startswith("StartJob(") or lbl.startswith("Lock("))
 
+    # node indices in order of first use; the projections are computed in parallel afterwards
+    order = []
+
     def nix(nid):
         i = node_ix.get(nid)
         if i is None:
-            i = len(node_lines)
+            i = len(order)
             node_ix[nid] = i
-            proj = project if kind == "managed" else PROJECTORS[kind]
-            post = proj(state_to_json(nodes[nid]), sites)
-            if kind == "sync":
-                post["stable"] = nid not in unstable
-            node_lines.append(json.dumps({"n": i, "post": post},
-                                         separators=(',', ':')))
+            order.append(nid)
         return i
 
     lbl_ix = {}
@@ -321,10 +369,28 @@ def write_paths(out_path, hcfg, nodes, edges, paths, sites, meta, kind="managed"
 
     nsteps = 0
     plines = []
+    ecache = {}
     for pid, p in enumerate(paths):
-        es = [[lix(edges[ei][2]), nix(edges[ei][1])] for ei in p]
-        nsteps += len(es)
-        plines.append(json.dumps({"id": pid, "e": es}, separators=(',', ':')))
+        parts = []
+        for ei in p:
+            c = ecache.get(ei)
+            if c is None:
+                c = "[%d,%d]" % (lix(edges[ei][2]), nix(edges[ei][1]))
+                ecache[ei] = c
+            parts.append(c)
+        nsteps += len(parts)
+        plines.append('{"id":%d,"e":[%s]}' % (pid, ",".join(parts)))
+    global _G
+    _G = (nodes, sites, kind, unstable)
+    chunks = [(k, order[k:k + 2000]) for k in range(0, len(order), 2000)]
+    if len(order) > 4000:
+        import multiprocessing
+        with multiprocessing.get_context("fork").Pool(min(12, os.cpu_count() or 1)) as pool:
+            for part in pool.imap(_project_chunk, chunks):
+                node_lines.extend(part)
+    else:
+        for c in chunks:
+            node_lines.extend(_project_chunk(c))
     with open(out_path, 'w') as f:
         f.write(json.dumps({"cfg": hcfg, "meta": meta, "format": 2, "kind": kind}) + "\n")
         f.write(json.dumps({"labels": labels}, separators=(',', ':')) + "\n")
